@@ -982,6 +982,9 @@ def OP_SET_FLAG(tape: Tape, stack: Stack, cache: dict) -> None:
     """
     size = int.from_bytes(tape.read(1), 'big')
     flag = tape.read(size)
+    if flag not in flags and len(flag) == 1 and flag[0] in flags:
+        # integer flags 0-255 are addressed by their one-byte encoding
+        flag = flag[0]
     sert(flag in flags, 'OP_SET_FLAG unrecognized flag')
     tape.flags[flag] = flags[flag]
 
@@ -991,6 +994,9 @@ def OP_UNSET_FLAG(tape: Tape, stack: Stack, cache: dict) -> None:
     """
     size = int.from_bytes(tape.read(1), 'big')
     flag = tape.read(size)
+    if flag not in tape.flags and len(flag) == 1 and flag[0] in tape.flags:
+        # integer flags 0-255 are addressed by their one-byte encoding
+        flag = flag[0]
     if flag in tape.flags:
         del tape.flags[flag]
 
